@@ -415,7 +415,6 @@ func computedFrom(v, src ssa.Value, depth int, seen map[ssa.Value]bool) bool {
 	return false
 }
 
-
 // trueReturnsUpdate: every return of the boolean function cl that may yield true is preceded on all paths by a MapUpdate of global g.
 func trueReturnsUpdate(cl *ssa.Function, g *ssa.Global) bool {
 	n := 0
